@@ -166,6 +166,22 @@ def suite_edges(ctx):
                 s.count('out=' + out.split(':')[0] + ':' + out.split(':')[1].split(' ')[0][:8])
                 if 'code=120' in out or 'negative:120' in out:
                     s.fail({'site': 'send_request', 'input': line, 'observed': out, 'required': '0x78 is never surfaced (pending replies end in a final reply or a timeout)'})
+                # the property read off the schedule (independent of the model): every in-time 0x78 keeps the request pending, the first other frame that
+                # arrives inside its window ends it - negative with its code, or positive -, a frame outside its window or no frame is a timeout
+                now, single, want = 0, (p2 if rt is None else min(p2, rt)), 'raise:timeout'
+                for (t, fr) in arr:
+                    w = single if rt is None else min(single, max(rt - now, 0))
+                    if t > now + w:
+                        break
+                    now = max(now, t)
+                    if fr[0] == 0x7F and fr[2] == 0x78:
+                        single = p2s
+                        continue
+                    want = ('raise:negative:%d' % fr[2]) if fr[0] == 0x7F else 'resp:'
+                    break
+                if not out.startswith(want):
+                    s.fail({'site': 'send_request', 'input': line, 'class': 'pending replies at the window edges', 'observed': out[:120],
+                            'required': want + (' (the final reply, valid and positive)' if want == 'resp:' else '')})
     core.compare(s, lines, core.drv_batch(lines), impl)
     s.sample({'line': lines[0], 'impl': impl[0]})
     return s
